@@ -225,9 +225,10 @@ class LoggingMonitor(pp.TransferMonitor):
                 outcome = 'raised'
             from .scenario import temp_leftovers
 
-            st = self._transfer_states[transfer_id]
-            self.w.log.add(kind, label=x.label, outcome=outcome, done=bool(st.done), jobs_left=st.jobs_to_complete,
-                           temps=temp_leftovers(x.dest) if getattr(x, 'dest', None) else [])
+            done, jobs_left, _ = self._peek(transfer_id)
+            if done is not None:
+                self.w.log.add(kind, label=x.label, outcome=outcome, done=done, jobs_left=jobs_left,
+                               temps=temp_leftovers(x.dest) if getattr(x, 'dest', None) else [])
 
         th = threading.Thread(target=late, name=f'vf-res-{kind.replace(".", "-")}-{x.label}', daemon=True)
         self.__dict__.setdefault('late_threads', []).append(th)
@@ -249,10 +250,26 @@ class LoggingMonitor(pp.TransferMonitor):
             except FileNotFoundError:
                 cur = None
             snap['dest'] = 'absent' if cur is None else ('complete' if cur == x.data else ('prev' if cur == x.prev else 'partial'))
-        self.w.log.add('pp.done', label=f't{transfer_id}', jobs_left=self._transfer_states[transfer_id].jobs_to_complete,
-                       exception=repr(self._transfer_states[transfer_id].exception) if self._transfer_states[transfer_id].exception else None,
-                       **snap)
+        _, jobs_left, exc = self._peek(transfer_id)
+        self.w.log.add('pp.done', label=f't{transfer_id}', jobs_left=jobs_left, exception=repr(exc) if exc else None, **snap)
         return super().notify_done(transfer_id)
+
+    def _peek(self, transfer_id):
+        """(done, jobs still to complete, stored exception) as far as the harness can see them.  done / exception come through
+        the monitor's own methods; the job counter only exists in its private state table - when that cannot be read the harness
+        is blind (recorded: the run is inconclusive), and the library must not be disturbed by it."""
+        try:
+            done = bool(pp.TransferMonitor.is_done(self, transfer_id))
+            exc = pp.TransferMonitor.get_exception(self, transfer_id)
+        except Exception as e:  # noqa
+            self.w.s3.harness_errors.append(f'LoggingMonitor: {e!r}')
+            return None, None, None
+        try:
+            jobs_left = self._transfer_states[transfer_id].jobs_to_complete
+        except Exception as e:  # noqa
+            self.w.s3.harness_errors.append(f'LoggingMonitor cannot read the job counter: {e!r}')
+            jobs_left = None
+        return done, jobs_left, exc
 
     def get_exception(self, transfer_id):
         self.w.director.point(self.w.director.occurrence(f't{transfer_id}/pp:get_exception'), 'before')
@@ -260,10 +277,12 @@ class LoggingMonitor(pp.TransferMonitor):
 
     def notify_cancel_all_in_progress(self):
         # which downloads had been notified done when the Ctrl-C exit cancelled "all in progress"
-        done_before = sorted(tid for tid, st in self._transfer_states.items() if st.done)
+        obs = getattr(self, 'obs', None)
+        tids = [x.future.meta.transfer_id for x in (obs.xfers if obs is not None else ()) if x.future is not None]
+        done_before = sorted(tid for tid in tids if self._peek(tid)[0])
         r = super().notify_cancel_all_in_progress()
         self.w.log.add('pp.cancel_all', done_before=done_before)
-        for tid in list(self._transfer_states):
+        for tid in tids:
             if tid not in done_before:
                 self._late_result(tid)
         return r
